@@ -8,7 +8,8 @@ Parts (each a family of work units):
   seq      E1  breadth-first over {reorder, rename, write+read of the data file} (mc/engine_seq.py)
   minc     E2  every composition of 10 tenths into 2..6 parts x 1,2,3 fracture-plane sets x 3 spacings x
                block selections of a 4-block grid (+ boundary / inactive block variants)
-  embed    E2  2-block sub-grid into every block of every base grid
+  embed    E2  2-block sub-grid into every block of every base grid; two successive embeds (second connection from the
+               result's block / the original grid's block object / the same connection object re-used)
 
 Oracle: the physical signature of ref/gridmodel.physics() - per block (volume, rock, centre); per
 interface {block: own distance}, area, permeability direction, which block is the upper one, |cosine| -
@@ -678,13 +679,13 @@ def run_minc(chunk, tier, rec):
 # ------------------------------------------------------------------------------------------------
 # part: embed
 # ------------------------------------------------------------------------------------------------
-def subgrid(scale):
+def subgrid(scale, names=('  p 1', '  q 1'), vols=(40., 24.)):
     import t2grids
     g = t2grids.t2grid()
     g.add_rocktype(t2grids.rocktype(name='subrk'))
-    for n, vol in (('  p 1', 40. * scale), ('  q 1', 24. * scale)):
+    for n, vol in zip(names, (vols[0] * scale, vols[1] * scale)):
         g.add_block(t2grids.t2block(n, vol, g.rocktype['subrk']))
-    g.add_connection(t2grids.t2connection([g.block['  p 1'], g.block['  q 1']], 1, [1., 2.], 3., 0.))
+    g.add_connection(t2grids.t2connection([g.block[names[0]], g.block[names[1]]], 1, [1., 2.], 3., 0.))
     return g
 
 
@@ -729,6 +730,64 @@ def eval_embed(g0, hostname, scale):
     return []
 
 
+def eval_embed_twice(g0, hostname, scale, variant):
+    """Two embeds.  'own-block' / 'original-block-object': a second sub-grid into the same host block of the
+    first result, the second connection naming the host through the result's own block / through the original
+    grid's block object (embed resolves by name).  'connection-reused': the same connection object passed to a
+    second, independent embed of an identical sub-grid into the original grid.  Total volume is conserved and
+    the host gives up exactly what was embedded into it.  Only cases where everything fits with room to spare."""
+    import t2grids
+    g = copy.deepcopy(g0)
+    m0 = model_of(g)
+    V = m0.binfo[hostname]['volume']
+    sub1 = subgrid(scale)
+    sub2 = subgrid(scale, ('  r 1', '  s 1'), (10., 6.)) if variant != 'connection-reused' else subgrid(scale)
+    s1 = sum(b.volume for b in sub1.blocklist)
+    s2 = sum(b.volume for b in sub2.blocklist)
+    if not (s1 + s2 < 0.9 * V):
+        return None
+    cls = 'second-embed:' + variant
+
+    def v(clause, what):
+        return [('C09|embed|%s|%s' % (clause, cls), '%s [host %r of volume %r, sub-grid volumes %r and %r]' % (what, hostname, V, s1, s2))]
+    try:
+        with quiet(), core.timelimit(60):
+            con1 = t2grids.t2connection([g.block[hostname], sub1.block['  p 1']], 2, [0.5, 0.25], 7., 0.)
+            r1 = g.embed(sub1, con1)
+            if r1 is None:
+                return v('refused', 'the first embed returned None')
+            if variant == 'own-block':
+                con2 = t2grids.t2connection([r1.block[hostname], sub2.block['  r 1']], 2, [0.5, 0.25], 7., 0.)
+                r2, base, given = r1.embed(sub2, con2), r1, s1 + s2
+            elif variant == 'original-block-object':
+                con2 = t2grids.t2connection([g.block[hostname], sub2.block['  r 1']], 2, [0.5, 0.25], 7., 0.)
+                r2, base, given = r1.embed(sub2, con2), r1, s1 + s2
+            else:
+                r2, base, given = g.embed(sub2, con1), g, s2
+    except core.CaseTimeout:
+        return v('timeout', 'embed did not return within 60 s')
+    except Exception as e:
+        return v('raises:' + type(e).__name__, 'embed raised %r' % (e,))
+    if r2 is None:
+        return v('refused', 'the second embed returned None although the host block is big enough')
+    bad = readable(r2)
+    if bad:
+        return v('network-unreadable', bad)
+    m2 = model_of(r2)
+    boundary = V >= 1e20
+    fin = lambda m: sum(i['volume'] for i in m.binfo.values() if i['volume'] < 1e20)
+    want_total = fin(m0) + ((s1 + s2 if variant != 'connection-reused' else s2) if boundary else 0.)
+    if abs(fin(m2) - want_total) > 1e-12 * want_total:
+        return v('total-volume', 'total volume (blocks below 1e20) %r after the second embed, expected %r' % (fin(m2), want_total))
+    want_host = V - given if variant == 'connection-reused' else (V - s1) - s2
+    if abs(m2.binfo[hostname]['volume'] - want_host) > 1e-12 * max(abs(want_host), 1.) and not boundary:
+        return v('host-gives-up-the-volume', 'host block has volume %r after the second embed, expected %r' % (m2.binfo[hostname]['volume'], want_host))
+    for b in m0.blocks:
+        if b != hostname and m2.binfo[b]['volume'] != m0.binfo[b]['volume']:
+            return v('other-block-volume', 'block %r changed volume from %r to %r' % (b, m0.binfo[b]['volume'], m2.binfo[b]['volume']))
+    return []
+
+
 def run_embed(base, tier, rec):
     gname, atm = base
     g0 = base_grid(gname, atm)
@@ -740,6 +799,16 @@ def run_embed(base, tier, rec):
             for sig, what in viol:
                 rec.violation(sig, what, {'part': 'embed', 'base': [gname, atm], 'host': blk.name, 'scale': scale})
             n += 1
+        for scale in (1., 1.e-3):
+            for variant in ('own-block', 'original-block-object', 'connection-reused'):
+                viol = eval_embed_twice(g0, blk.name, scale, variant)
+                if viol is None:
+                    continue
+                rec.case(('embed2', gname, atm, blk.name, scale, variant), outcome='violation' if viol else 'ok')
+                for sig, what in viol:
+                    rec.violation(sig, what, {'part': 'embed2', 'base': [gname, atm], 'host': blk.name, 'scale': scale,
+                                              'variant': variant})
+                n += 1
     rec.count('embed_cases', n)
 
 
@@ -802,6 +871,9 @@ def replay(case):
         return eval_rename(base_grid(gname, atm), case['map'], case['via_t2data'])[0]
     if part == 'minc':
         return eval_minc(minc_grid(case['variant']), case['fractions'], case['planes'], case['spacing'], case['blocks'], case.get('fcd'))
+    if part == 'embed2':
+        gname, atm = case['base']
+        return eval_embed_twice(base_grid(gname, atm), case['host'], case['scale'], case['variant']) or []
     if part == 'embed':
         gname, atm = case['base']
         return eval_embed(base_grid(gname, atm), case['host'], case['scale'])
